@@ -49,7 +49,9 @@ Theorem C02_every_order : forall out alts alts' az bind_ok p sc,
 Proof. exact justified_in_every_order. Qed.
 Print Assumptions C02_every_order.
 
-(* the property predicate that the check evaluates on the implementation's traces holds of every model trace *)
+(* the property predicate holds of every model trace (strict form: Handle events are justified with their principal and
+   scopes; the check evaluates the non-strict form on the untyped handler's trace, where the principal is not observable,
+   and the strict justification on the result of Context.Authorize through authorize_ok below) *)
 Theorem C02_model_satisfies_checked_predicate : forall out alts az bind_ok,
   sec_ok out alts az bind_ok true (secure_handler out alts az bind_ok) = true.
 Proof. exact secure_handler_satisfies_property. Qed.
@@ -72,3 +74,17 @@ Theorem C02_admitted_runs : forall out alts az,
   alts <> [] -> let tr := secure_handler out alts az true in In Bind tr -> exists p sc, In (Handle p sc) tr.
 Proof. exact admitted_runs. Qed.
 Print Assumptions C02_admitted_runs.
+
+(* with no anonymous alternative and no authorizer the handler runs exactly when some alternative is fully satisfied,
+   hence the verdict is the same for every evaluation order of the schemes *)
+Theorem C02_runs_iff_some_satisfied : forall out alts,
+  alts <> [] -> allows_anon alts = false ->
+  ran (secure_handler out alts None true) = some_satisfied out alts.
+Proof. exact runs_iff_some_satisfied. Qed.
+Print Assumptions C02_runs_iff_some_satisfied.
+
+Theorem C02_verdict_order_independent : forall out alts alts',
+  Forall2 alt_perm alts alts' -> alts <> [] -> allows_anon alts = false ->
+  ran (secure_handler out alts None true) = ran (secure_handler out alts' None true).
+Proof. exact verdict_order_independent. Qed.
+Print Assumptions C02_verdict_order_independent.
